@@ -18,7 +18,7 @@ def view_paths(rng, n):
         p = rng.choice(phs)
         ops = [('set_phases', dict(x=x, phs=phs)), ('set_flow', dict(x=x, p=p, c=1, v=8)),
                ('view_read', dict(x=x, p=p)), ('view_write', dict(x=x, p=p, c=2, v=4))]
-        kind = rng.choice(['same', 'more', 'other', 'save_restore', 'get_eq', 'reduce'])
+        kind = rng.choice(['same', 'more', 'other', 'save_restore', 'save_restore_phases', 'get_eq', 'reduce'])
         phs2 = phs
         if kind == 'same':
             ops.append(('set_phases', dict(x=x, phs=phs)))
@@ -30,6 +30,17 @@ def view_paths(rng, n):
             ops.append(('set_phases', dict(x=x, phs=phs2)))
         elif kind == 'save_restore':
             ops += [('save', dict(x=x)), ('set_flow', dict(x=x, p=p, c=1, v=12)), ('restore', dict(x=x))]
+        elif kind == 'save_restore_phases':
+            # restore a snapshot onto a stream whose material has since moved to phases the snapshot does not have
+            q = rng.choice([z for z in ds.ALLPH if z.lower() not in [y.lower() for y in phs]] or [p])
+            how = rng.choice(['single', 'multi'])
+            ops.append(('save', dict(x=x)))
+            if how == 'single':
+                ops += [('empty', dict(x=x)), ('set_phases', dict(x=x, phs=[q])), ('set_flow', dict(x=x, p=q, c=1, v=12))]
+            else:
+                phs3 = sorted({q, rng.choice(ds.ALLPH)})
+                ops += [('empty', dict(x=x)), ('set_phases', dict(x=x, phs=phs3)), ('set_flow', dict(x=x, p=q, c=2, v=8))]
+            ops.append(('restore', dict(x=x)))
         elif kind == 'get_eq':
             ops.append(('get_eq', dict(x=x, kind=rng.choice(['vle', 'lle', 'sle']))))
         else:
